@@ -164,7 +164,7 @@ fn ramp(family: usize, d: usize) -> String {
 const N_RAMPS: usize = 10;
 
 pub fn n_items(w: &Work, ctx: &Ctx) -> usize {
-    let seeded = if ctx.quick() { 600 } else { 12000 };
+    let seeded = if ctx.quick() { 600 } else { 30000 };
     w.corpus.len() * 2 + TEMPLATES.len() + N_RAMPS + seeded
 }
 
